@@ -33,6 +33,7 @@ SPECIAL_TITLES = [
     "C++", "#1", "100%", "\"Heroes\"", "C++ C#", "$5 100%", "'n' \"roll\"", "C++ and C#", "#1 best seller", "100% cotton", "\"Heroes\" of might", "$5 off 100%", "it's a 'quoted' word", "+plus+ -minus-",
     "Mississippi to Tennessee", "assesses 10000 bananas", "aaaa bbbb", "abababab cdcdcd", "1111 2222 3333", "xxxxx", "zzz zz z",
     "a b c d", "x y", "q", "counterrevolutionaries unite", "donaudampfschifffahrtsgesellschaft", "pneumonoultramicroscopicsilicovolcanoconiosis",
+    "Rock'n'roll vinyl", "Men's leather belt", "50's diner", "a+b=c", "AC/DC tribute", "o'clock", "l'été d'avant", "x_y_z",
     "t-shirt xl", "wi-fi router", "e-mail", "micro biology", "night light", "power-bank usb", "3d printer 4k", "usb2 hub", "no.5 chanel",
     "500ml bottle 12v 1kg", "Größe XL", "Süße Grüße", "Élégant cœur", "Bäckerstraße 5",
     "daddy puppy mummy", "sense tests sensors", "bell bela pikk", "radar level civic",
@@ -133,6 +134,9 @@ def small_store_case(prop, kind, lang, rnd, titles, target_title, extra=None):
     """a store with no more records than its limit, holding target_title among others; returns (case, sid, rid)"""
     k = rnd.randint(0, 5)
     others = [rnd.choice(titles) for _ in range(k)]
+    if rnd.random() < 0.12:
+        # a store of many copies of the same title (more records than the index has distinct grams)
+        others = [target_title] * rnd.randint(7, 14)
     recs = others[:]
     pos = rnd.randint(0, len(recs))
     recs.insert(pos, target_title)
@@ -235,6 +239,13 @@ def gen_whole_pair_cases(lang, rnd, titles, toks, ncases):
         if not tok or not tok["words"]:
             continue
         c, sid, rid = small_store_case("C13", "whole", lang, rnd, titles, t)
+        if rnd.random() < 0.3:
+            # the title was searched for just before the record arrived
+            add_op = [op for op in c.ops if op.get("op") == "add" and op.get("id") == rid][0]
+            c.ops.remove(add_op)
+            c.search(sid, t, rep=1)
+            add_op["id"] = rid = 900
+            c.ops.append(add_op)
         c.search(sid, t, expect=dict(prop="C13", kind="whole", rid=rid))
         ws = words_of(tok)
         if len(ws) >= 2:
@@ -264,6 +275,13 @@ def gen_split_join_cases(lang, rnd, titles, toks, ncases):
                 for k in range(1, len(w)):
                     sep = rnd.choice([[32], [45], [32], [44], [46], [9]])
                     c.search(sid, w[:k] + sep + w[k:], expect=dict(prop="C14", kind="split", rid=rid, widx=wi + 1))
+        # the word as spelled in the title, one separator typed inside it (also next to a symbol inside the word)
+        for wi, w in enumerate(ws):
+            wsh = tok["words"][wi]
+            src = [x for x in tok["source"][wsh["s"]:wsh["e"]] if x]
+            if len(w) >= 3 and any(not chr(x).isalnum() for x in src):
+                for k in range(1, len(src)):
+                    c.search(sid, src[:k] + [rnd.choice([32, 32, 45, 44])] + src[k:], expect=dict(prop="C14", kind="split_raw", rid=rid, widx=wi + 1))
         for wi in range(len(ws) - 1):
             if tok["words"][wi + 1]["s"] - tok["words"][wi]["e"] == 1 and len(ws[wi]) + len(ws[wi + 1]) >= 3:
                 c.search(sid, ws[wi] + ws[wi + 1], expect=dict(prop="C14", kind="joined", rid=rid, widx=wi + 1))
@@ -405,7 +423,7 @@ def gen_histories(prop, lang, rnd, titles, toks, ncases, length=14, adversarial=
     """C10 / C12 / C01: random histories over add, clear, limit, markers, search; every search is also put to a
     freshly built store"""
     cases = []
-    seps = ["", " ", "-,", "\u0000", "  ", "...", "\t", " ", "!?"]
+    seps = ["", " ", "-,", "\u0000", "  ", "...", "\t", "\u00a0", "!?", "\u0301", " \u0308 - ", "'\u0303' ...", "$ + $"]
     for case_no in range(ncases):
         c = Case(prop, "history", lang=lang)
         sid = c.new_store(lang, markers=(SENT_L, SENT_R) if rnd.random() < 0.7 else None)
@@ -681,6 +699,9 @@ def gen_variant_cases(lang, rnd, titles, toks, ncases):
             for x in cps(t):
                 d += decomp.get(x, [x])
             c.add(sid2, 100 + i, d, rt[i])
+        c.search(sid, [], tag="base_empty")
+        for pre in ([32], [45], [32, 32], [46, 32], [9], [44]):
+            c.search(sid, pre, expect=dict(prop="C11", kind="variant", tag="base_empty", base=[], ops=[], prefix=pre))
         for qi in range(4):
             # the base query is spelled like the titles (upper case, accents), cut somewhere
             t = rnd.choice(recs)
@@ -721,7 +742,9 @@ def gen_variant_cases(lang, rnd, titles, toks, ncases):
 
 
 # ------------------------------------------------------------------------------------------------ components
-MODEL_SYMS = [("a", "V"), ("t", "C"), ("7", "N"), ("ж", "A"), ("o", "V"), ("n", "C")]
+# "з" (U+0437) and "7" (U+0037) agree in their low byte, "t"/"4" and "s"/"3" in their low six bits: look-alikes for
+# code that keys tables by a truncated code point
+MODEL_SYMS = [("a", "V"), ("t", "C"), ("7", "N"), ("з", "A"), ("o", "V"), ("n", "C")]
 
 
 def all_words(nsym, maxlen):
@@ -764,22 +787,26 @@ def gen_dl_cases(rnd, tier):
             c.ops.append(dl_op(1, a, b, lambda ch: cls[ch]))
     cases.append(c)
     # random words over a richer alphabet, classes a function of the character
-    alpha = "aeiouytnsrlkdm7-3жλ"
+    alpha = "aeiouytnsrlkdm7-3жλ4д3гs"
     cmap = {}
     for ch in alpha:
-        cmap[ch] = "V" if ch in "aeiouy" else "C" if ch in "tnsrlkdm" else "N" if ch in "7-3" else "A"
+        cmap[ch] = "V" if ch in "aeiouy" else "C" if ch in "tnsrlkdm" else "N" if ch in "7-34" else "A"
     nrand = 40 if tier == "quick" else 700
     for k in range(nrand):
         c = Case("C16", "random-history")
         inst = 1
         c.op(op="dlnew", inst=inst)
-        steps = rnd.randint(3, 8)
+        steps = 8 if k % 8 == 0 else rnd.randint(3, 8)
         for s in range(steps):
             long_turn = (s % 2 == 0) == (k % 2 == 0)
             hi = rnd.choice([25, 45, 80]) if long_turn else 6
             lo = 15 if long_turn else 0
-            if tier == "quick" and hi > 45:
+            if tier == "quick" and hi > 45 and k % 8 != 0:
                 hi = 45
+            if k % 8 == 0:
+                # very long, then medium (longer than the initial capacity of 20), then short: growth and any later
+                # re-dimensioning of the matrix must always leave room for the pair at hand
+                lo, hi = [(60, 80), (21, 30), (0, 6), (22, 26), (60, 70), (30, 34), (21, 23), (0, 3)][s % 8]
             la, lb = rnd.randint(lo, hi), rnd.randint(lo, hi)
             sub = alpha[:rnd.choice([3, 6, len(alpha)])]
             a = "".join(rnd.choice(sub) for _ in range(la))
@@ -837,6 +864,13 @@ def gen_jac_cases(rnd, tier):
             b = [ord(rnd.choice(alpha)) for _ in range(rnd.randint(0, hi))]
             c.op(op="jac", inst=1, a=a, b=b)
             c.op(op="jac", inst=1, a=b, b=a)
+            if s % 2 == 0:
+                # a small set against one several times larger (both orders)
+                wide = "abcdefghijklmnopqrstuvwxyz0123456789"
+                small = [ord(x) for x in rnd.sample(wide, rnd.randint(1, 4))]
+                big = [ord(x) for x in rnd.sample(wide, rnd.randint(9, 30))]
+                c.op(op="jac", inst=1, a=small, b=big)
+                c.op(op="jac", inst=1, a=big, b=small)
             a2 = a + [rnd.choice(a)] * rnd.randint(0, 3) if a else a
             rnd.shuffle(a2)
             c.op(op="jac", inst=1, a=a2, b=b)
@@ -913,6 +947,7 @@ def gen_prepare_cases(lang, rnd, titles, toks, ncases):
         base = [rnd.choice(titles) for _ in range(rnd.randint(1, 4))]
         n = rnd.choice([3, 8, 15, 35])
         recs = []
+        misses = []
         for i in range(n):
             r = rnd.random()
             if r < 0.5:
@@ -929,6 +964,14 @@ def gen_prepare_cases(lang, rnd, titles, toks, ncases):
             if rnd.random() < 0.15:
                 q = random_query(lang, rnd, recs, toks)
                 c.op(op="prepare", sid=sid, q=cps(q), size=rnd.randint(0, 3))
+            if rnd.random() < 0.12:
+                # a query that (most likely) misses everything so far, asked again after more records arrived
+                qm = rand_word(rnd, script_letters(lang), 2, 5)
+                misses.append(qm)
+                c.op(op="prepare", sid=sid, q=cps(qm), size=rnd.randint(1, 3))
+        for qm in misses:
+            c.op(op="prepare", sid=sid, q=cps(qm), size=3)
+            c.op(op="prepare", sid=sid, q=cps(qm[:2]), size=3)
         for _q in range(6):
             q = random_query(lang, rnd, recs, toks)
             for size in rnd.sample([0, 1, 2, 3], 2):
@@ -966,6 +1009,27 @@ def gen_registry_cases(rnd, ncases, pools, toks, length=30):
         live = {}
         ids = [1, 2, 3, 7]
         nrid = 1
+        last_q = None
+        if rnd.random() < 0.6:
+            # two stores of different languages holding the same titles receive the same inputs alternately
+            la, lb = rnd.sample(LANGS, 2)
+            for i, lg in ((1, la), (2, lb)):
+                live[i] = dict(lang=lg, titles=[])
+                c.op(op="r_create", id=i, lang=lg)
+                c.op(op="new", sid=1000 + i, lang=lg)
+            shared_titles = [rnd.choice(pools[la]), rnd.choice(pools[lb]), rnd.choice(["Straße Größe", "université café", "running shoes", "ёлка мёд"])]
+            for t in shared_titles:
+                for i in (1, 2):
+                    c.op(op="r_add", id=i, rid=nrid, title=cps(t), rating=nrid)
+                    c.op(op="add", sid=1000 + i, id=nrid, title=cps(t), rating=nrid)
+                    live[i]["titles"].append(t)
+                nrid += 1
+            for t in shared_titles:
+                for w in t.split()[:2]:
+                    for q in (w, w[:max(1, len(w) - 1)], w + " "):
+                        for i in (1, 2, 1):
+                            c.search(1000 + i, q, tag="sa%d" % i, want=["qtok", "fresh"], rep=1)
+                            c.op(op="r_search", id=i, q=cps(q))
         for _s in range(length):
             r = rnd.random()
             if (r < 0.15 or not live) and len(live) < len(ids):
@@ -983,6 +1047,9 @@ def gen_registry_cases(rnd, ncases, pools, toks, length=30):
                 del live[i]
             elif r < 0.55:
                 t = rnd.choice(pools[L["lang"]]) if rnd.random() < 0.85 else rnd.choice(ADVERSARIAL)
+                elsewhere = [x for j, o in live.items() if j != i for x in o["titles"]]
+                if elsewhere and rnd.random() < 0.35:
+                    t = rnd.choice(elsewhere)       # the same title in stores of different languages
                 rating = rnd.randint(0, 50)
                 c.op(op="r_add", id=i, rid=nrid, title=cps(t), rating=rating)
                 c.op(op="add", sid=1000 + i, id=nrid, title=cps(t), rating=rating)
@@ -1007,8 +1074,14 @@ def gen_registry_cases(rnd, ncases, pools, toks, length=30):
                 c.op(op="markers", sid=1000 + i, l=cps(l), r=cps(rr))
             else:
                 q = random_query(L["lang"], rnd, L["titles"], toks) if L["titles"] and rnd.random() < 0.8 else rnd.choice(["", " ", "a", "zz"])
+                if last_q is not None and rnd.random() < 0.3:
+                    q = last_q                   # the very same input as the previous search (possibly on another id)
+                if L.get("lastq") is not None and rnd.random() < 0.25:
+                    q = L["lastq"]               # this id's own previous input again (e.g. after a limit change)
                 c.search(1000 + i, q, tag="sa%d" % i, want=["qtok", "fresh"])
                 c.op(op="r_search", id=i, q=cps(q))
+                last_q = q
+                L["lastq"] = q
         cases.append(c)
     return cases
 
@@ -1187,5 +1260,27 @@ def gen_vocab_cases(prop, lang, rnd, titles, toks, ncases):
                 c.search(sid, q, want=["qtok", "pairs"], max_pairs=6, perms=perms)
             else:
                 c.search(sid, q, want=["qtok", "singles", "unlimited"])
+        cases.append(c)
+    return cases
+
+
+def gen_gate_cases(rnd, tier):
+    """C17 at the call site: the Jaccard pre-filter of word_match (matching/word.rs) on literal word pairs - a word and
+    its single edits / prefixes, over alphabets that include look-alike code points (digits, letters 64 or 256 apart)"""
+    cases = []
+    alphas = ["abcde", "ts34-m", "aeiou", "abcdefghijklmnopqrstuvwxyz", "tд4ьs3é)i", "øoOo0"]
+    n = 40 if tier == "quick" else 800
+    for k in range(n):
+        c = Case("C17", "gate")
+        alpha = rnd.choice(alphas)
+        for _ in range(40):
+            w = [ord(rnd.choice(alpha)) for _ in range(rnd.randint(1, 9))]
+            es = edits_of(w, alpha, rnd, 1)
+            v = rnd.choice(es)[1] if es and rnd.random() < 0.7 else [ord(rnd.choice(alpha)) for _ in range(rnd.randint(1, 9))]
+            if rnd.random() < 0.3:
+                v = w[:rnd.randint(1, len(w))]
+            if not v:
+                continue
+            c.op(op="gate", r=w, q=v, qfin=rnd.random() < 0.4)
         cases.append(c)
     return cases
